@@ -635,7 +635,7 @@ func init() {
 			}
 			lp := strings.ToLower(prop)
 			// first, in a single goroutine: deterministic even if the library shares buffers between calls
-			exploreChoiceOpts(r, lp+".returned-bytes", 2, dl, 1)
+			exploreChoiceOpts(r, lp+".returned-bytes", 3, dl, 1)
 			for kind := 0; kind < 3; kind++ {
 				exploreChoice(r, fmt.Sprintf("%s.valid.%s", lp, kindNames[kind]), b, dl)
 			}
